@@ -139,6 +139,26 @@ class GridT(Type):
         return g, wf
 
 
+def _no_shared_callables(v, name):
+    """an unknown callable inside the element template of a symbolic list would be ONE callable shared by all elements (a no-argument method would
+    return the same value for every element): refuse the type instead of proving things about it (use opaque elements, whose methods are functions
+    of the receiver)"""
+    from .interp import UFunc, UPred
+    from .values import Rec
+
+    if isinstance(v, (UFunc, UPred)):
+        raise TypeError(f"{name}: FuncT / PredT inside the element type of a ListT is not supported (it would be shared by all elements)")
+    if isinstance(v, Rec):
+        for f in v.fields.values():
+            _no_shared_callables(f, name)
+    elif isinstance(v, (tuple, list)):
+        for f in v:
+            _no_shared_callables(f, name)
+    elif isinstance(v, dict):
+        for f in v.values():
+            _no_shared_callables(f, name)
+
+
 class ListT(Type):
     def __init__(self, elem: Type):
         self.elem = elem
@@ -147,6 +167,7 @@ class ListT(Type):
         from .values import leaves_of
 
         tmpl, twf = self.elem.fresh(name + "_tmpl")
+        _no_shared_callables(tmpl, name)
         lst = SymList.fresh(name, tmpl)
         wf = [lst.length >= 0]
         if twf:
